@@ -1672,3 +1672,281 @@ Section Helpers.
       sbindT; [eapply sep_weaken; [apply Hrec; exact Hl'|auto]|]. intros; now sret.
   Qed.
 End Helpers.
+
+(* ------------------------------------------------------------------ *)
+(** * step *)
+Section Step.
+  Variable ct : ctable.
+  Hypothesis no_dnc : forall c k, lookup_cls ct c = Some k -> c_dnc k = false.
+  Hypothesis wf_owner : forall c k, lookup_cls ct c = Some k -> c_owner k = c.
+  Variable b : nat.
+  Variable A : loc -> Prop.
+  Variable h0 : list obj.
+  Hypothesis AC : A_closed b A h0.
+  Hypothesis ct_ok : table_ok ct b A.
+  Hypothesis A_dnc : dnc_allowed ct b A h0.
+
+  Local Notation okV := (okv b A).
+  Local Notation SEP := (sep b A h0).
+  Let Hrec := proj1 (exec_sep ct no_dnc wf_owner b A h0 AC ct_ok A_dnc XFUEL).
+
+  Definition op_ok (roots : list val) (o : op) : Prop :=
+    match o with
+    | OpConstruct c pos kw => kwok ct b A kw /\ match pos with Some v => okV v | None => True end
+    | OpSetAttr x a v => freshv b (nth x roots VNone) /\ okV v
+    | OpDelAttr x a => freshv b (nth x roots VNone)
+    | OpHelper x hp h => hargs_ok ct b A h /\ forall l, nth x roots VNone = VRef l -> form_ok ct b A l hp h
+    | OpDeepCopy x => True
+    | OpAlloc ob => obj_ok b A ob
+    end.
+
+  Definition Qstep (roots : list val) (o : op) (r : val) : Prop :=
+    match o with
+    | OpHelper x _ _ => okV r \/ r = nth x roots VNone
+    | _ => okV r
+    end.
+
+  Theorem step_sep roots o : op_ok roots o -> SEP (step ct roots o) (Qstep roots o).
+  Proof.
+    destruct o; simpl; intro H.
+    - destruct H. eapply sep_weaken; [apply Hrec; simpl; auto|simpl; apply freshv_okv].
+    - destruct H as [H1 H2]. sbind; [apply loc_of_sep|]. intros l Hl. rewrite Hl in H1.
+      sbindT; [eapply sep_weaken; [apply Hrec; simpl; auto|auto]|]. intros; now sret.
+    - sbind; [apply loc_of_sep|]. intros l Hl. rewrite Hl in H.
+      sbindT; [eapply sep_weaken; [apply Hrec; simpl; auto|auto]|]. intros; now sret.
+    - destruct H as [H1 H2]. sbind; [apply loc_of_sep|]. intros l Hl.
+      eapply sep_weaken; [eapply run_helper_sep; eauto|]. intros r Hr. rewrite Hl. exact Hr.
+    - eapply sep_weaken; [eapply deepcopy_sep; eauto|].
+      intros r Hr. destruct (nth x roots VNone); try (rewrite Hr; exact I).
+      destruct Hr as [l' [-> Hl']]. simpl. auto.
+    - sbind; [apply sep_alloc; exact H|]. intros l Hl. sret. simpl. auto.
+  Qed.
+End Step.
+
+(* ------------------------------------------------------------------ *)
+(** * Instantiating the allowed set *)
+Definition reach_from (h0 : list obj) (R : loc -> Prop) (l : loc) : Prop :=
+  exists l0, R l0 /\ reach h0 l0 l.
+
+Lemma in_vrefs l xs : In (VRef l) xs -> In l (vrefs xs).
+Proof. intro H. unfold vrefs. apply in_flat_map. exists (VRef l). simpl. auto. Qed.
+
+Lemma okv_of_refs b A xs : (forall l, In l (vrefs xs) -> b <= l \/ A l) -> Forall (okv b A) xs.
+Proof.
+  intro H. rewrite Forall_forall. intros v Hv. destruct v; simpl; auto. apply H. now apply in_vrefs.
+Qed.
+
+Lemma obj_ok_of_refs b A o : (forall l, In l (refs_of o) -> b <= l \/ A l) -> obj_ok b A o.
+Proof.
+  destruct o as [xs|kvs|xs|c d]; simpl; intro H.
+  - now apply okv_of_refs.
+  - rewrite Forall_forall. intros p Hp. split.
+    + destruct (fst p) eqn:E; simpl; auto. apply H. apply in_or_app. left. apply in_vrefs.
+      rewrite <- E. now apply in_map.
+    + destruct (snd p) eqn:E; simpl; auto. apply H. apply in_or_app. right. apply in_vrefs.
+      rewrite <- E. now apply in_map.
+  - now apply okv_of_refs.
+  - rewrite Forall_forall. intros p Hp. unfold fok. destruct (snd p) eqn:E; simpl; auto.
+    apply H. apply in_vrefs. rewrite <- E. now apply in_map.
+Qed.
+
+Lemma reach_from_closed b h0 R : A_closed b (reach_from h0 R) h0.
+Proof.
+  intros l o [l0 [H0 Hr]] Hl Hn. apply obj_ok_of_refs. intros l' Hin. right.
+  exists l0. split; auto. eapply reach_step; eauto.
+Qed.
+
+(* the value of a do_not_copy attribute of an instance of heap h0 *)
+Definition dnc_value (ct : ctable) (h0 : list obj) (l : loc) : Prop :=
+  exists li c d k a sp, nth_error h0 li = Some (OInst c d) /\ lookup_cls ct c = Some k /\
+                        In (a, VRef l) d /\ lookup_attr k a = Some sp /\ a_dnc sp = true.
+
+Lemma reach_from_dnc ct b h0 R :
+  (forall l, dnc_value ct h0 l -> R l) -> dnc_allowed ct b (reach_from h0 R) h0.
+Proof.
+  intros H l c d k a sp x Hl Hn Hk Hin Ha Hd. destruct x; simpl; auto. right.
+  exists l0. split; [|constructor]. apply H. exists l, c, d, k, a, sp. auto.
+Qed.
+
+(* callbacks and factories that embed no heap references *)
+Definition val_nonref (v : val) : Prop := match v with VRef _ => False | _ => True end.
+Definition fn_scalar (f : fn) : Prop :=
+  match f with
+  | FNewList xs => Forall val_nonref xs
+  | FAppended x | FDictOf _ x => val_nonref x
+  | _ => True
+  end.
+Definition fac_scalar (f : fac) : Prop :=
+  match f with
+  | FacList xs | FacSet xs => Forall val_nonref xs
+  | FacDict kvs => Forall (fun p => val_nonref (fst p) /\ val_nonref (snd p)) kvs
+  | FacInst _ => True
+  end.
+Definition ofn_scalar (o : option fn) : Prop := match o with Some f => fn_scalar f | None => True end.
+Definition scalar_table (ct : ctable) : Prop :=
+  forall k, In k ct ->
+    (forall sp, In sp (c_attrs k) ->
+       ofn_scalar (a_prepare sp) /\ ofn_scalar (a_prepare_item sp) /\
+       match a_factory sp with Some f => fac_scalar f | None => True end) /\
+    ofn_scalar (c_post_init k) /\ ofn_scalar (c_post_copy k).
+
+Lemma nonref_okv b A v : val_nonref v -> okv b A v.
+Proof. destruct v; simpl; auto; contradiction. Qed.
+Lemma nonref_Forall b A xs : Forall val_nonref xs -> Forall (okv b A) xs.
+Proof. intro H. eapply Forall_impl; [|exact H]. intros; now apply nonref_okv. Qed.
+Lemma fn_scalar_ok b A f : fn_scalar f -> fn_ok b A f.
+Proof. destruct f; simpl; auto using nonref_okv, nonref_Forall. Qed.
+Lemma ofn_scalar_ok b A o : ofn_scalar o -> ofn_ok b A o.
+Proof. destruct o; simpl; auto using fn_scalar_ok. Qed.
+Lemma fac_scalar_ok b A f : fac_scalar f -> fac_ok b A f.
+Proof.
+  destruct f; simpl; auto using nonref_Forall. intro H. eapply Forall_impl; [|exact H].
+  intros p [H1 H2]. split; now apply nonref_okv.
+Qed.
+Lemma scalar_table_ok ct b A : scalar_table ct -> table_ok ct b A.
+Proof.
+  intros H k Hk. destruct (H k Hk) as (H1 & H2 & H3). split; [|split; now apply ofn_scalar_ok].
+  intros sp Hsp. destruct (H1 sp Hsp) as (P1 & P2 & P3). split; [now apply ofn_scalar_ok|].
+  split; [now apply ofn_scalar_ok|]. destruct (a_factory sp); auto using fac_scalar_ok.
+Qed.
+
+Lemma sinv_start h0 A s : heap s = h0 -> sinv (length h0) A h0 s.
+Proof.
+  intros <-. split; [lia|]. split; [auto|]. intros l o Hl Hn.
+  apply nth_error_None in Hl. congruence.
+Qed.
+
+(* ------------------------------------------------------------------ *)
+(** * Consequences stated on plain runs *)
+Definition arg_loc (h : hargs) (l : loc) : Prop :=
+  In (VRef l) (h_pos h) \/ h_index h = VRef l \/ exists kw a, h_kw h = Some kw /\ In (a, VRef l) kw.
+
+(* a class-level default object *)
+Definition dflt_loc (ct : ctable) (l : loc) : Prop :=
+  exists c k a, lookup_cls ct c = Some k /\ class_default k a = VRef l.
+
+Definition fns_scalar (h : hargs) : Prop :=
+  ofn_scalar (h_fn h) /\ Forall (fun p => fn_scalar (snd p)) (h_kwfn h).
+
+Definition plain_top_transform (hp : helper) (h : hargs) : Prop :=
+  match hp with
+  | HTransformTop => match h_fn h with Some f => is_appended f = false | None => True end
+  | _ => True
+  end.
+
+Section Theorems.
+  Variable ct : ctable.
+  Hypothesis no_dnc : forall c k, lookup_cls ct c = Some k -> c_dnc k = false.
+  Hypothesis wf_owner : forall c k, lookup_cls ct c = Some k -> c_owner k = c.
+  Hypothesis Hscalar : scalar_table ct.
+
+  Lemma okv_root b h0 (R : loc -> Prop) l : R l -> okv b (reach_from h0 R) (VRef l).
+  Proof. intro H. right. exists l. split; [exact H|constructor]. Qed.
+
+  Theorem helper_separated s l hp h r' s' :
+    h_inplace h = false -> fns_scalar h -> plain_top_transform hp h ->
+    run_helper ct l hp h s = (Ok (VRef r'), s') ->
+    r' = l \/
+    forall l', reach (heap s') r' l' ->
+      length (heap s) <= l' \/
+      exists l0, (arg_loc h l0 \/ dnc_value ct (heap s) l0 \/ dflt_loc ct l0) /\ reach (heap s) l0 l'.
+  Proof.
+    intros Hin [Hfn Hkwfn] Hplain Hrun.
+    set (h0 := heap s). set (b := length h0).
+    set (R := fun l0 => arg_loc h l0 \/ dnc_value ct h0 l0 \/ dflt_loc ct l0).
+    set (A := reach_from h0 R).
+    assert (AC : A_closed b A h0) by apply reach_from_closed.
+    assert (Tok : table_ok ct b A) by (apply scalar_table_ok; exact Hscalar).
+    assert (Adnc : dnc_allowed ct b A h0) by (apply reach_from_dnc; intros; unfold R; auto).
+    assert (Hd : dflt_ok ct b A).
+    { intros c k a Hk. destruct (class_default k a) eqn:E; simpl; auto. apply okv_root.
+      unfold R. right. right. exists c, k, a. auto. }
+    assert (Hargs : hargs_ok ct b A h).
+    { split; [|split; [|split; [|split]]].
+      - rewrite Forall_forall. intros v Hv. destruct v; simpl; auto. apply okv_root. left. left. exact Hv.
+      - destruct (h_index h) eqn:E; simpl; auto. apply okv_root. left. right. left. reflexivity.
+      - destruct (h_kw h) as [kw|] eqn:E; simpl; auto. unfold kw_okv. rewrite Forall_forall.
+        intros [a v] Hp. unfold fok. simpl. destruct v; simpl; auto. apply okv_root. left. right. right.
+        exists kw, a. auto.
+      - split; [|right; exact Hd]. eapply Forall_impl; [|exact Hkwfn]. intros p Hp. now apply fn_scalar_ok.
+      - now apply ofn_scalar_ok. }
+    assert (Hform : form_ok ct b A l hp h).
+    { split; [rewrite Hin; discriminate|]. destruct hp; simpl; auto. }
+    destruct (run_helper_sep ct no_dnc wf_owner b A h0 AC Tok Adnc l hp h Hargs Hform s
+                (sinv_start h0 A s eq_refl)) as [Hs' Hq].
+    rewrite Hrun in Hs', Hq. simpl in Hs', Hq.
+    destruct Hq as [Hq|Hq]; [right|left; inversion Hq; reflexivity].
+    intros l' Hr. destruct (sinv_reach b A h0 AC s' r' l' Hs' Hq Hr) as [H|[l0 [H1 H2]]]; [left; exact H|right].
+    exists l0. split; auto.
+  Qed.
+
+  Theorem deepcopy_separated s l r' s' :
+    deepcopy ct (VRef l) s = (Ok (VRef r'), s') ->
+    length (heap s) <= r' /\
+    forall l', reach (heap s') r' l' ->
+      length (heap s) <= l' \/ exists l0, dnc_value ct (heap s) l0 /\ reach (heap s) l0 l'.
+  Proof.
+    intros Hrun. set (h0 := heap s). set (b := length h0).
+    set (A := reach_from h0 (dnc_value ct h0)).
+    assert (AC : A_closed b A h0) by apply reach_from_closed.
+    assert (Tok : table_ok ct b A) by (apply scalar_table_ok; exact Hscalar).
+    assert (Adnc : dnc_allowed ct b A h0) by (apply reach_from_dnc; auto).
+    destruct (deepcopy_sep ct no_dnc b A h0 AC Tok Adnc (VRef l) s (sinv_start h0 A s eq_refl)) as [Hs' Hq].
+    rewrite Hrun in Hs', Hq. simpl in Hs', Hq. destruct Hq as [l'' [E Hl'']]. inversion E; subst l''.
+    split; [exact Hl''|]. intros l' Hr.
+    destruct (sinv_reach b A h0 AC s' r' l' Hs' (or_introl Hl'') Hr) as [H|[l0 [H1 H2]]]; [left; exact H|right].
+    exists l0. auto.
+  Qed.
+
+  (* what the caller handed to a constructor call for attributes that are not copied *)
+  Definition ctor_arg_loc (pos : option val) (kw : list (aid * val)) (l : loc) : Prop :=
+    pos = Some (VRef l) \/ exists a, In (a, VRef l) kw /\ dncname ct a = true.
+
+  Theorem construct_separated c pos kw s r s' :
+    exec ct XFUEL (KConstruct c pos kw) s = (Ok (VRef r), s') ->
+    length (heap s) <= r /\
+    forall l', reach (heap s') r l' ->
+      length (heap s) <= l' \/
+      exists l0, (ctor_arg_loc pos kw l0 \/ dnc_value ct (heap s) l0) /\ reach (heap s) l0 l'.
+  Proof.
+    intros Hrun. set (h0 := heap s). set (b := length h0).
+    set (R := fun l0 => ctor_arg_loc pos kw l0 \/ dnc_value ct h0 l0).
+    set (A := reach_from h0 R).
+    assert (AC : A_closed b A h0) by apply reach_from_closed.
+    assert (Tok : table_ok ct b A) by (apply scalar_table_ok; exact Hscalar).
+    assert (Adnc : dnc_allowed ct b A h0) by (apply reach_from_dnc; intros; unfold R; auto).
+    assert (Hok : call_ok ct b A (KConstruct c pos kw)).
+    { simpl. split.
+      - intros a v Hv. destruct (dncname ct a) eqn:E; [left|right; reflexivity].
+        destruct v; simpl; auto. apply okv_root. left. right. exists a. auto.
+      - destruct pos as [v|]; auto. destruct v; simpl; auto. apply okv_root. left. left. reflexivity. }
+    destruct (proj1 (exec_sep ct no_dnc wf_owner b A h0 AC Tok Adnc XFUEL) _ Hok s
+                (sinv_start h0 A s eq_refl)) as [Hs' Hq].
+    rewrite Hrun in Hs', Hq. simpl in Hs', Hq.
+    split; [exact Hq|]. intros l' Hr.
+    destruct (sinv_reach b A h0 AC s' r l' Hs' (or_introl Hq) Hr) as [H|[l0 [H1 H2]]]; [left; exact H|right].
+    exists l0. auto.
+  Qed.
+
+  Theorem default_value_separated sp k s v s' :
+    In k ct -> In sp (c_attrs k) ->
+    lookup_default_value ct (exec ct XFUEL) sp k s = (Ok v, s') ->
+    freshv (length (heap s)) v /\
+    forall r l', v = VRef r -> reach (heap s') r l' ->
+      length (heap s) <= l' \/ exists l0, dnc_value ct (heap s) l0 /\ reach (heap s) l0 l'.
+  Proof.
+    intros Hk Hsp Hrun. set (h0 := heap s). set (b := length h0).
+    set (A := reach_from h0 (dnc_value ct h0)).
+    assert (AC : A_closed b A h0) by apply reach_from_closed.
+    assert (Tok : table_ok ct b A) by (apply scalar_table_ok; exact Hscalar).
+    assert (Adnc : dnc_allowed ct b A h0) by (apply reach_from_dnc; auto).
+    assert (Hspok : spec_ok b A sp) by (destruct (Tok k Hk) as [H _]; apply H; exact Hsp).
+    destruct (exec_sep ct no_dnc wf_owner b A h0 AC Tok Adnc XFUEL) as [E1 E2].
+    destruct (lookup_default_value_sep ct no_dnc b A h0 AC Tok Adnc (exec ct XFUEL) E1 sp k Hspok s
+                (sinv_start h0 A s eq_refl)) as [Hs' Hq].
+    rewrite Hrun in Hs', Hq. simpl in Hs', Hq.
+    split; [exact Hq|]. intros r l' -> Hr. simpl in Hq.
+    destruct (sinv_reach b A h0 AC s' r l' Hs' (or_introl Hq) Hr) as [H|[l0 [H1 H2]]]; [left; exact H|right].
+    exists l0. auto.
+  Qed.
+End Theorems.
